@@ -202,12 +202,12 @@ Proof.
   - (* FCStr *) rewrite (nulfree_no_nul _ Hw) in He. apply Ok_inj in He. subst b. cbn [lay_params lay_param]. rewrite (lay_cstr_enc _ Hw). now rewrite app_nil_r.
   - (* FU8 *) apply Ok_inj in He. subst b. cbn [lay_params lay_param]. now rewrite Hw.
   - (* FBool *) apply Ok_inj in He. subst b. unfold enc_bool. cbn [lay_params lay_param]. destruct b0; reflexivity.
-  - (* FEsm *) apply Ok_inj in He. subst b. cbn [lay_params lay_param]. rewrite <- (esm_to_byte_spec e Hw).
+  - (* FEsm *) change (esm_fits e) with (wf_esm e) in He; rewrite Hw in He. apply Ok_inj in He. subst b. cbn [lay_params lay_param]. rewrite <- (esm_to_byte_spec e Hw).
     assert (esm_to_byte e < 256) as Hb.
     { rewrite (esm_to_byte_spec e Hw). destruct e as [m t u0 r]. unfold wf_esm in Hw. cbn [e_mode e_type] in Hw.
       apply andb_true_iff in Hw. unfold spec_esm_byte, nb. cbn [e_mode e_type e_udhi e_reply]. destruct u0, r; lia. }
     destruct (N.ltb_spec (esm_to_byte e) 256); [reflexivity | lia].
-  - (* FRegDel *) apply Ok_inj in He. subst b. cbn [lay_params lay_param]. rewrite <- (regdel_to_byte_spec r Hw).
+  - (* FRegDel *) change (regdel_fits r) with (wf_regdel r) in He; rewrite Hw in He. apply Ok_inj in He. subst b. cbn [lay_params lay_param]. rewrite <- (regdel_to_byte_spec r Hw).
     assert (regdel_to_byte r < 256) as Hb.
     { rewrite (regdel_to_byte_spec r Hw). destruct r as [m s i v]. unfold wf_regdel in Hw. cbn [r_mc r_sme r_rsv] in Hw.
       apply andb_true_iff in Hw. destruct Hw as [Hw Hv]. apply andb_true_iff in Hw.
@@ -431,8 +431,8 @@ Definition pre_field (lay : layout) (udhi : bool) (k : fkind) (v : fval) : bool 
   | FCStr, VStr s => octetsb s
   | FU8, VU8 b => b <? 256
   | FBool, VBool _ => true
-  | FEsm, VEsm e => wf_esm e
-  | FRegDel, VRegDel r => wf_regdel r
+  | FEsm, VEsm e => true            (* ANY sub-field values: Marshal refuses the ones wider than their bit fields *)
+  | FRegDel, VRegDel r => true
   | FAddr, VAddr a => pre_addr a
   | FDests, VDests sme dl => forallb pre_addr sme && forallb octetsb dl
   | FUnsucc, VUnsucc l => forallb (fun e => pre_addr (fst e) && (snd e <? 4294967296)) l
@@ -470,6 +470,8 @@ Lemma pre_field_wf lay u k v b : pre_field lay u k v = true -> enc_field lay u k
 Proof.
   destruct k, v; cbn [pre_field enc_field wf_field]; try discriminate; intros Hp He; try exact Hp.
   - destruct (has_nul s) eqn:En; [discriminate|]. now apply octets_no_nul.
+  - change (wf_esm e) with (esm_fits e). destruct (esm_fits e); [reflexivity | discriminate].
+  - change (wf_regdel r) with (regdel_fits r). destruct (regdel_fits r); [reflexivity | discriminate].
   - destruct (has_nul (a_no a)) eqn:En; [discriminate|]. now apply pre_addr_wf.
   - apply andb_true_iff in Hp. destruct Hp as [Hs Hd]. unfold enc_dests in He.
     destruct (255 <? _); [discriminate|].
@@ -507,6 +509,13 @@ Proof.
   destruct (enc_fields lay u ks vs) as [b2| |] eqn:E2; cbn [obind] in He; try discriminate.
   cbn [wf_fields]. now rewrite (pre_field_wf lay u k v b1 Hv E1), (IH vs b2 Hvs E2).
 Qed.
+
+(* a flag sub-field wider than its bit field (esm_class mode > 3, type > 15; registered_delivery receipt / ack > 3,
+   reserved > 7) cannot be expressed: the field encoder reports an error, whatever the rest of the PDU is *)
+Lemma flag_width_refused lay u :
+  (forall e, esm_fits e = false -> enc_field lay u FEsm (VEsm e) = Err ESize) /\
+  (forall r, regdel_fits r = false -> enc_field lay u FRegDel (VRegDel r) = Err ESize).
+Proof. split; intros x H; cbn [enc_field]; rewrite H; reflexivity. Qed.
 
 (* C02, last sentence: whatever Marshal accepts it states faithfully *)
 Theorem marshal_ok_expressible lay h vs f :
@@ -599,12 +608,12 @@ Proof.
       apply Hfin. apply (Hcont seen u_dec Hctx Hseen). intros Hs. rewrite (Hnot Hs). reflexivity.
     + apply Ok_inj in E1. subst b1. unfold enc_bool. cbn [dec_field app dec_u8 obind norm_val]. rewrite nb_eqb1.
       apply Hfin. apply (Hcont seen u_dec Hctx Hseen). intros Hs. rewrite (Hnot Hs). reflexivity.
-    + apply Ok_inj in E1. subst b1. cbn [dec_field app dec_u8 obind norm_val]. rewrite (wf_esm_roundtrip e Hv).
+    + change (esm_fits e) with (wf_esm e) in E1; rewrite Hv in E1. apply Ok_inj in E1. subst b1. cbn [dec_field app dec_u8 obind norm_val]. rewrite (wf_esm_roundtrip e Hv).
       apply andb_true_iff in Hctx. destruct Hctx as [Hns Hctx]. apply negb_true_iff in Hns.
       pose proof (Hnot Hns) as Hu. rewrite udhi_of_cons in Hu.
       rewrite (esm_free_udhi lay u_enc ks vs (ctx_ok_seen_esm_free _ _ _ Hctx) Hvs), orb_false_r in Hu.
       apply Hfin. apply (Hcont true (e_udhi e) Hctx); [intros _; congruence | discriminate].
-    + apply Ok_inj in E1. subst b1. cbn [dec_field app dec_u8 obind norm_val]. rewrite (wf_regdel_roundtrip r Hv).
+    + change (regdel_fits r) with (wf_regdel r) in E1; rewrite Hv in E1. apply Ok_inj in E1. subst b1. cbn [dec_field app dec_u8 obind norm_val]. rewrite (wf_regdel_roundtrip r Hv).
       apply Hfin. apply (Hcont seen u_dec Hctx Hseen). intros Hs. rewrite (Hnot Hs). reflexivity.
     + rewrite (wf_addr_no_nul _ Hv) in E1. apply Ok_inj in E1. subst b1. cbn [dec_field]. rewrite (dec_addr_enc _ _ Hv). cbn [obind norm_val].
       apply Hfin. apply (Hcont seen u_dec Hctx Hseen). intros Hs. rewrite (Hnot Hs). reflexivity.
@@ -692,4 +701,129 @@ Proof.
     - exact Hperm. }
   rewrite Hk. change (slen (body0 ++ tlvs)) with (len (body0 ++ tlvs)). rewrite len_app.
   replace (16 + (len body0 + len tlvs)) with (16 + len body0 + len tlvs) by lia. reflexivity.
+Qed.
+
+(* ------------------------------------------------------------ registry completeness *)
+(* The command_id registry of the running code (Gen/PduLayouts.v, dumped from pdu.types) is EXACTLY the set of
+   operations of SMPP v5: both transcriptions of the specification agree, every operation is registered, nothing
+   else is; ids are distinct, so the lookup by id is a bijection between the 33 layouts and the 33 operations. *)
+Lemma spec_lists_agree : map (fun o : op => fst (fst o)) smpp5_ops = spec_command_ids.
+Proof. vm_compute. reflexivity. Qed.
+Lemma registry_is_spec : map l_id layouts = spec_command_ids.
+Proof. vm_compute. reflexivity. Qed.
+Lemma spec_ids_nodup : NoDup spec_command_ids.
+Proof.
+  assert (H : forall l : list N, (fix nd (l : list N) : bool := match l with [] => true | x :: r => negb (existsb (N.eqb x) r) && nd r end) l = true -> NoDup l).
+  { induction l as [|x r IH]; intros Hl; [constructor|].
+    apply andb_true_iff in Hl. destruct Hl as [Hx Hr]. constructor; [|apply IH; exact Hr].
+    intros Hin. apply negb_true_iff in Hx.
+    assert (existsb (N.eqb x) r = true) as E by (apply existsb_exists; exists x; split; [exact Hin | apply N.eqb_refl]).
+    congruence. }
+  apply H. vm_compute. reflexivity.
+Qed.
+Theorem registry_complete :
+  map l_id layouts = spec_command_ids /\
+  List.length layouts = 33%nat /\
+  (forall id, In id spec_command_ids -> exists l, In l layouts /\ l_id l = id /\ find_layout layouts id = Some l) /\
+  (forall l, In l layouts -> In (l_id l) spec_command_ids /\ exists o, find_op smpp5_ops (l_id l) = Some o) /\
+  (forall id, ~ In id spec_command_ids -> find_layout layouts id = None).
+Proof.
+  split; [exact registry_is_spec|]. split; [vm_compute; reflexivity|]. split; [|split].
+  - intros id Hin. rewrite <- registry_is_spec in Hin. apply in_map_iff in Hin. destruct Hin as [l [Hid Hl]].
+    exists l. split; [exact Hl|]. split; [exact Hid|]. rewrite <- Hid. apply layouts_find. exact Hl.
+  - intros l Hl. split; [rewrite <- registry_is_spec; apply in_map; exact Hl|].
+    assert (H : forallb (fun l => match find_op smpp5_ops (l_id l) with Some _ => true | None => false end) layouts = true)
+      by (vm_compute; reflexivity).
+    rewrite forallb_forall in H. specialize (H l Hl). destruct (find_op smpp5_ops (l_id l)) as [o|]; [exists o; reflexivity | discriminate].
+  - intros id Hn. rewrite <- registry_is_spec in Hn.
+    induction layouts as [|l ls IH]; [reflexivity|]. cbn [find_layout].
+    destruct (N.eqb_spec (l_id l) id) as [E|E]; [exfalso; apply Hn; left; exact E|].
+    apply IH. intros Hin. apply Hn. right. exact Hin.
+Qed.
+
+(* ------------------------------------------------------------ the decoder on specification layouts, WITHOUT a Marshal hypothesis *)
+(* Frames a conforming peer may send that Marshal itself never produces: a TLV with a zero-length value
+   (section 4.8.1 allows length 0), and sm_length 141..255 (4.7.28: 0..255).  The theorems above reach the decoder
+   only through [marshal _ _ = Ok _]; these do not. *)
+Lemma spec_udh_body u : forallb wf_ie u = true ->
+  List.concat (map (fun e => fst e :: slen (snd e) :: snd e) u) = enc_udh_body u.
+Proof.
+  intros Hw. unfold enc_udh_body. induction u as [|[k d] u IH]; [reflexivity|].
+  cbn [forallb] in Hw. apply andb_true_iff in Hw. destruct Hw as [He Hr]. unfold wf_ie in He. cbn [fst snd] in He.
+  apply andb_true_iff in He. destruct He as [He _]. apply andb_true_iff in He. destruct He as [_ Hl].
+  cbn [map List.concat flat_map fst snd]. rewrite (IH Hr). rewrite slen_len, (N.mod_small (len d) 256) by lia. reflexivity.
+Qed.
+
+Definition tlv_ok0 (e : N * bytes) : bool := (fst e <? 65536) && (len (snd e) <? 65536) && octetsb (snd e).
+
+Lemma dec_tags_loop_any0 l : forall fuel m b,
+  forallb tlv_ok0 l = true -> lay_all lay_tlv l = Some b -> (List.length l <= fuel)%nat ->
+  dec_tags_loop fuel b m = Ok (ins_all l m).
+Proof.
+  unfold ins_all. induction l as [|[k v] r IH]; intros fuel m b Hw Hl Hf; cbn [lay_all fold_left] in *.
+  - injection Hl as <-. destruct fuel; reflexivity.
+  - cbn [forallb] in Hw. apply andb_true_iff in Hw. destruct Hw as [Hkv Hr]. unfold tlv_ok0 in Hkv. cbn [fst snd] in *.
+    apply andb_true_iff in Hkv. destruct Hkv as [Hkv Ho]. apply andb_true_iff in Hkv. destruct Hkv as [Hk Hlt].
+    unfold lay_tlv at 1 in Hl. cbn [fst snd] in Hl. rewrite slen_len, Hk, Hlt in Hl. cbn [andb] in Hl.
+    destruct (lay_all lay_tlv r) as [rb|] eqn:Er; [|discriminate]. apply Some_inj in Hl. subst b.
+    destruct fuel as [|fuel]; [cbn in Hf; lia|].
+    change (slen v) with (len v). rewrite (be2_be16 k), (be2_be16 (len v)).
+    unfold be16. rewrite <- !app_assoc. cbn [app dec_tags_loop].
+    rewrite (de16_be16 k) by lia. rewrite (de16_be16 (len v)) by lia.
+    destruct (N.eqb_spec (len v) 0) as [E0|E0].
+    + destruct v as [|x v]; [|rewrite len_cons in E0; lia]. cbn [app].
+      apply IH; [exact Hr | reflexivity | cbn [List.length] in Hf; lia].
+    + destruct (v ++ rb) as [|x xs] eqn:Evr.
+      { destruct v; [cbn in E0; lia | discriminate]. }
+      rewrite <- Evr. rewrite len_app. destruct (N.leb_spec (len v) (len v + len rb)); [|lia].
+      rewrite len_nat. rewrite firstn_app_l, firstn_all by lia. rewrite skipn_app_l, skipn_all by lia. cbn [app].
+      apply IH; [exact Hr | reflexivity | cbn [List.length] in Hf; lia].
+Qed.
+
+(* a TLV section laid out from the specification — any tags, any order, duplicates, values of 0..65535 octets —
+   decodes to the map holding, per tag, the LAST value sent (an empty value included) *)
+Theorem dec_tags_spec l b :
+  forallb tlv_ok0 l = true -> lay_all lay_tlv l = Some b -> dec_tags b = Ok (kv_sort l).
+Proof.
+  intros Hw Hl. unfold dec_tags, kv_sort. fold (ins_all l []).
+  apply dec_tags_loop_any0; [exact Hw | exact Hl | apply lay_all_tlv_len; exact Hl].
+Qed.
+
+(* the short-message region laid out from the specification: [data_coding] sm_default_msg_id sm_length short_message,
+   short_message = user data header (when the indicator is set) followed by the message; ANY sm_length 0..255 *)
+Theorem spec_short_decodes (rep : bool) (dc dflt : N) (u : option kvs) (msg rest : bytes) :
+  (rep = true -> u = None) ->
+  match u with Some u' => wf_udh u' = true | None => True end ->
+  let o := (match u with Some u' => spec_udh u' | None => [] end) ++ msg in
+  len o <= 255 ->
+  dec_short rep (match u with Some _ => true | None => false end)
+            ((if rep then [] else [dc]) ++ [dflt; len o] ++ o ++ rest)
+  = Ok ({| sm_dflt := dflt; sm_dc := (if rep then NoCoding else dc); sm_udh := u; sm_msg := msg |}, rest).
+Proof.
+  intros Hrep Hwf o Hlen. subst o.
+  destruct u as [u|].
+  - destruct rep; [specialize (Hrep eq_refl); discriminate|].
+    assert (Henc : exists b, enc_udh u = Ok b).
+    { unfold enc_udh. unfold wf_udh in Hwf. apply andb_true_iff in Hwf. destruct Hwf as [Hs Hw].
+      rewrite (kv_sort_sorted u Hs), (wf_udh_no_oversize u Hw). eexists. reflexivity. }
+    destruct Henc as [b Hb].
+    assert (Hbl : len b = len (spec_udh u)).
+    { clear Hlen Hrep. unfold enc_udh in Hb. unfold wf_udh in Hwf. apply andb_true_iff in Hwf. destruct Hwf as [Hs Hw].
+      rewrite (kv_sort_sorted u Hs), (wf_udh_no_oversize u Hw) in Hb. apply Ok_inj in Hb. subst b.
+      unfold spec_udh. rewrite (spec_udh_body u Hw). rewrite !len_cons. reflexivity. }
+    rewrite len_app in Hlen.
+    assert (Hb255 : len b <= 255) by lia.
+    pose proof (spec_udh_enc u b Hwf Hb Hb255) as Hsp. subst b.
+    destruct (dec_udh_enc u (spec_udh u) (msg ++ rest) Hwf Hb Hb255) as [Hd Hl].
+    unfold dec_short. cbn [app dec_u8 obind].
+    rewrite <- app_assoc. rewrite Hd. cbn [obind]. rewrite <- Hl. rewrite len_app.
+    replace ((len (spec_udh u) + len msg + 256 - len (spec_udh u) mod 256) mod 256) with (len msg) by lia.
+    rewrite take_app. reflexivity.
+  - cbn [app] in *. destruct rep.
+    + unfold dec_short. cbn [app dec_u8 obind].
+      replace ((len msg + 256 - 0 mod 256) mod 256) with (len msg) by lia.
+      rewrite take_app. reflexivity.
+    + unfold dec_short. cbn [app dec_u8 obind].
+      replace ((len msg + 256 - 0 mod 256) mod 256) with (len msg) by lia.
+      rewrite take_app. reflexivity.
 Qed.
